@@ -10,11 +10,11 @@ wt = f"/tmp/seed/{prop}"
 src = f"/tmp/seed/{prop}.out/{m}"
 env = dict(os.environ, GOFLAGS="-mod=mod", GOPROXY="off", GOSUMDB="off", GOTOOLCHAIN="local")
 def sh(cmd, cwd=None, timeout=1800):
-    return subprocess.run(cmd, shell=True, cwd=cwd, env=env, capture_output=True, text=True, timeout=timeout)
+    return subprocess.run(cmd, shell=True, cwd=cwd, env=env, capture_output=True, text=True, errors='replace', timeout=timeout)
 def clean():
     sh("git checkout -- . && git clean -fdq", wt)
 clean()
-demo = open(f"{src}/demo_test.go").read()
+demo = open(f"{src}/demo_test.go", errors="replace").read()
 pkg = re.search(r"^package (\w+)", demo, re.M).group(1)
 pkgdir = {"plenc_test": ".", "plenc": ".", "plenccodec_test": "plenccodec", "plenccodec": "plenccodec", "null": "null", "null_test": "null", "plenccore": "plenccore", "plenccore_test": "plenccore"}[pkg]
 tests = "|".join(re.findall(r"^func (Test\w+)", demo, re.M))
@@ -62,7 +62,7 @@ res["checks"] = det
 out = f"/verif/seeded/{prop}-{m}"
 os.makedirs(out, exist_ok=True)
 shutil.copy(f"{src}/patch.diff", out); shutil.copy(f"{src}/demo_test.go", out)
-meta = {"property": prop, "demo_package_dir": pkgdir, "needs_to_manifest": open(f"{src}/meta.txt").read()[:3000],
+meta = {"property": prop, "demo_package_dir": pkgdir, "needs_to_manifest": open(f"{src}/meta.txt", errors="replace").read()[:3000],
         "confirmed": {k: res[k] for k in res if k != "checks"}, "detected_by": {c: d["violations"] > 0 for c, d in det.items()}, "checks": det,
         "what_was_run": f"in scratch worktree {wt}: demo without change; git apply; go build ./...; go test -vet=off -count=1 ./... (TestDescriptor is flaky on the pinned tree too: up to 3 tries); demo with change; then patch applied to /repo, ./check <id> --tier quick for {checks}, git checkout"}
 json.dump(meta, open(f"{out}/meta.json", "w"), indent=1)
